@@ -9,10 +9,15 @@
 (* worlds (S.w0 and the world after Finalise) and the access sets, which are never reverted;*)
 (* it knows nothing about journals, so effects of reverted frames and values that were      *)
 (* changed and restored cannot appear as changes, while their accesses stay.                *)
+(*                                                                                          *)
+(* The block-level list is the merge of the per-transaction lists keyed by block access     *)
+(* index; its encoding object must be sorted by address / slot / index, strictly            *)
+(* increasing, duplicate-free, with reads and writes disjoint (ValidEncoding).              *)
 EXTENDS StateDB
 
 None == -1     \* "no change recorded"
 
+(* ---------------------------------- per-transaction list ---------------------------------- *)
 ExpectedAccount(S, a) ==
   LET pre  == S.w0[a]
       post == Finalise(S).w[a]
@@ -33,7 +38,7 @@ ChangedImpliesAccessed(S) ==
   S.rec => \A a \in Addr :
      LET pre == S.w0[a]  post == Finalise(S).w[a] IN
      /\ (post # pre) => a \in S.racc
-     /\ \A k \in Slot : post.st[k] # pre.st[k] => (k \in S.rslot[a] \/ ~post.ex)
+     /\ \A k \in Slot : post.st[k] # pre.st[k] => k \in S.rslot[a]
 (* under Amsterdam rules an account that disappears (or is reset by EIP-8264) had no storage at the *)
 (* start of the transaction, so no storage change is lost with it                                   *)
 RemovedHadNoStorage(S) ==
@@ -41,4 +46,43 @@ RemovedHadNoStorage(S) ==
      LET pre == S.w0[a]  post == Finalise(S).w[a] IN
      (S.w[a].ex /\ post.st # S.w[a].st) => (pre.st = ZeroSt /\ post.st = ZeroSt)
 BALInvariants(S) == ChangedImpliesAccessed(S) /\ RemovedHadNoStorage(S)
+
+(* ---------------------------------- block-level list ---------------------------------- *)
+(* per account: sets of <<block access index, post value>> per field and per slot, set of read slots *)
+EmptyBlock == [a \in Addr |-> [in |-> FALSE, bal |-> {}, nonce |-> {}, code |-> {},
+                               wr |-> [k \in Slot |-> {}], rd |-> {}]]
+Ch(idx, v) == IF v = None THEN {} ELSE {<<idx, v>>}
+(* ConstructionBlockAccessList.Merge of the list E of the transaction with block access index idx *)
+MergeTx(B, E, idx) ==
+  [a \in Addr |->
+     LET b == B[a]
+         e == E[a]
+         wr == [k \in Slot |-> b.wr[k] \cup Ch(idx, e.wr[k])]
+     IN  [in    |-> b.in \/ e.in,
+          bal   |-> b.bal \cup Ch(idx, e.bal),
+          nonce |-> b.nonce \cup Ch(idx, e.nonce),
+          code  |-> b.code \cup Ch(idx, e.code),
+          wr    |-> wr,
+          rd    |-> {k \in b.rd \cup {x \in Slot : e.rd[x]} : wr[k] = {}}]]
+
+(* the encoding object of the real list, projected: per account sequences of <<index, value>> *)
+SeqSet(L) == {L[i] : i \in 1..Len(L)}
+StrictlySorted(L) == \A i, j \in 1..Len(L) : i < j => L[i][1] < L[j][1]
+ValidChanges(L, maxIdx) == StrictlySorted(L) /\ \A i \in 1..Len(L) : L[i][1] >= 0 /\ L[i][1] <= maxIdx
+EncodingMatches(B, P, maxIdx) ==
+  \A a \in Addr :
+     /\ P[a].in = B[a].in
+     /\ SeqSet(P[a].bal) = B[a].bal     /\ ValidChanges(P[a].bal, maxIdx)
+     /\ SeqSet(P[a].nonce) = B[a].nonce /\ ValidChanges(P[a].nonce, maxIdx)
+     /\ SeqSet(P[a].code) = B[a].code   /\ ValidChanges(P[a].code, maxIdx)
+     /\ \A k \in Slot : SeqSet(P[a].wr[k]) = B[a].wr[k] /\ ValidChanges(P[a].wr[k], maxIdx)
+     /\ \A k \in Slot : P[a].rd[k] = (k \in B[a].rd)
+     /\ \A k \in Slot : ~(P[a].rd[k] /\ P[a].wr[k] # << >>)
+
+(* one value per index: what a lookup at a block access index must return *)
+Functional(B) == \A a \in Addr :
+     /\ \A x, y \in B[a].bal : x[1] = y[1] => x = y
+     /\ \A x, y \in B[a].nonce : x[1] = y[1] => x = y
+     /\ \A x, y \in B[a].code : x[1] = y[1] => x = y
+     /\ \A k \in Slot : \A x, y \in B[a].wr[k] : x[1] = y[1] => x = y
 =============================================================================
